@@ -1,6 +1,7 @@
 import ClipVerif.Proofs.C01
 import ClipVerif.Proofs.Wind
 import ClipVerif.Proofs.WindIx
+import ClipVerif.Proofs.Sweep
 import ClipVerif.Model.Vertex
 import ClipVerif.Proofs.Vertex
 /-
@@ -136,6 +137,26 @@ theorem vertexRing_closed_shape (path : List Point64) (r : VRing) (h : vertexRin
     (∃ i, i < r.pts.size ∧ r.pts[i]!.Y ≠ r.pts[0]!.Y) ∧
     r.pts.toList.Sublist path := by
   exact Proofs.Vertex.closed_shape path r h
+
+
+/-! ### The abstract sweep: the invariants hold in every reachable state -/
+
+/-- one structural operation (insertion of a local minimum anywhere in the list, intersection of
+    any two adjacent edges, removal of a local maximum) preserves the sweep invariant -/
+theorem sweepStep_preserves (ct fr : Nat) (hct : ct = 1 ∨ ct = 2 ∨ ct = 3 ∨ ct = 4) (hfr : fr ≤ 3)
+    (s : List HEdge) (op : SweepOp) (h : SweepInv ct fr s) : SweepInv ct fr (sweepStep ct fr s op) := by
+  exact Proofs.Sweep.sweepStep_preserves ct fr hct hfr s op h
+
+/-- every active-edge list reachable from the empty one by any sequence of such operations — any
+    number of edges, any interleaving — carries exact winding counts on every edge, and an edge is
+    hot (has an output record) exactly when the result predicate differs across it -/
+theorem sweep_invariant (ct fr : Nat) (hct : ct = 1 ∨ ct = 2 ∨ ct = 3 ∨ ct = 4) (hfr : fr ≤ 3)
+    (ops : List SweepOp) : SweepInv ct fr (ops.foldl (sweepStep ct fr) []) := by
+  exact Proofs.Sweep.sweep_invariant ct fr hct hfr ops
+
+/-- non-vacuity: three operations from the empty list reach a four-edge state -/
+example : ([SweepOp.insert 0 0 1, SweepOp.insert 1 1 1, SweepOp.swap 1 true false].foldl (sweepStep 2 1) []).length = 4 := by
+  exact Proofs.Sweep.example_len
 
 
 end C01
